@@ -22,7 +22,7 @@ LEVEL = "exploration"
 RULE = (
     "one case = one seeded merge_to (store pairing bzr/memory/git, source and destination tag dicts built from the "
     "four name classes source-only / destination-only / identical / differing, overwrite, selector, bound master with "
-    "its own dict, ignore_master, optional err_before|crash at mutating store op k) plus its round-trip ops; "
+    "its own dict, ignore_master, optional err_before|crash at mutating store op k or a transient ReadError|PermissionDenied|TransportError at the n-th read) plus its round-trip ops; "
     "or, instead of a fault, a second writer (1-3 set_tag/delete_tag calls on the destination through its own Branch "
     "object) interleaved with the merge at every store op (random|pct|rr schedules); "
     "non-trivial = at least two of the four name classes are present and the destination was read back through a "
@@ -229,9 +229,17 @@ def generate(rng, tier):
         if plan["policy"] == "pct":
             plan["preempt_at"] = sorted(rng.sample(range(15, 110), rng.randint(3, 9)))
         return plan
-    if not dst_git and kind != "bzr2mem" and rng.random() < 0.45:
+    if not dst_git and kind != "bzr2mem" and rng.random() < 0.6:
         top = 16 if bound else 9
         plan["faults"] = [{"kind": rng.choice(["err_before", "crash"]), "at": rng.choice([4, 4, 4, 11, 11] + list(range(1, top))), "count": "mut", "applied": rng.random() < 0.5, "err": rng.choice(["transport", "enospc", "permission"])}]
+        if rng.random() < 0.6:
+            # a transient error at the n-th read of the merge (the reads of the tags files are
+            # the 9th-14th get of an unbound bzr->bzr merge, a few more with a master)
+            plan["faults"] = [{"kind": "err_before", "op": "get", "nth": rng.randint(1, 24), "err": rng.choice(["readerror", "readerror", "permission", "permission", "transport"])}]
+            if rng.random() < 0.85:
+                # aimed: the m-th read of a tags file (source, destination, master) during the merge
+                nreads = (1 if kind.startswith("bzr") else 0) + 1 + (1 if bound and not plan["ignore_master"] and not kind.startswith("mem") else 0)
+                plan["faults"][0]["tags_read"] = rng.randint(1, nreads)
     return plan
 
 
@@ -332,6 +340,8 @@ def execute(sim, plan):
     kind = plan["kind"]
     src_kind, dst_kind = kind.split("2")
     fkind = plan["faults"][0]["kind"] if plan.get("faults") else "none"
+    if fkind == "err_before" and plan["faults"][0].get("op") == "get":
+        fkind = "read_error"
     scratch = os.environ["VERIF_SCRATCH"]
     gitrevs = None
     gpaths = {}
@@ -499,7 +509,29 @@ def execute(sim, plan):
 
     # -- the merge under test ---------------------------------------------------------------
     outcome = "ok"
-    sim.arm(plan.get("faults", []))
+    armed = []
+    for f in plan.get("faults", []):
+        f = dict(f)
+        if f.get("err") == "readerror":
+            from dromedary.errors import ReadError
+
+            f["exc"] = ReadError("injected read error")
+        if "tags_read" in f:
+            f["nth"] = -1  # set by the filter below when the m-th read of a tags file comes up
+        armed.append(f)
+    sim.arm(armed)
+    if armed and "tags_read" in armed[0]:
+        seen_tags_reads = [0]
+
+        def aim(actor, op, path, mutating):
+            # (called before the op is counted: make the fault's 'n-th get' this very get)
+            if op == "get" and path.endswith("/tags") and sim.faults:
+                seen_tags_reads[0] += 1
+                if seen_tags_reads[0] == sim.faults[0].get("tags_read"):
+                    sim.faults[0]["nth"] = actor.opcount.get("get", 0) + 1
+            return True
+
+        sim.fault_filter = aim
     try:
         got_u, got_c = do_merge()
     except SimCrash:
@@ -516,6 +548,7 @@ def execute(sim, plan):
         outcome = "error"
         sim.event("merge-failed", type(e).__name__)
     sim.disarm()
+    sim.fault_filter = None
     if sim.current().dead and outcome != "crash":
         # the crash was swallowed somewhere below (zombie): the process is gone all the same
         outcome = "crash"
@@ -544,7 +577,7 @@ def execute(sim, plan):
             try:
                 got = stored_state(opener)
             except Exception as e:  # noqa: BLE001
-                fail("old_or_new", f"{label}:unreadable:{type(e).__name__}", f"after {fkind} at op {plan['faults'][0]['at']} the {label} tags cannot be read: {type(e).__name__}: {e}")
+                fail("old_or_new", f"{label}:unreadable:{type(e).__name__}", f"after {fkind} ({plan['faults'][0]}) the {label} tags cannot be read: {type(e).__name__}: {e}")
             if got != old and got != new:
                 fail("old_or_new", f"{label}:neither", f"after {fkind} the {label} tag dict {show(got)} is neither the old {show(old)} nor the new {show(new)}")
             sim.probe(f"after_fault_{label}_" + ("new" if got == new and new != old else "old"))
